@@ -45,7 +45,7 @@ func convertNumberToJsonNumber(v any) json.Number {
 func convertKeyToString(m map[any]any) map[string]any {
 	ret := make(map[string]any)
 	for k, v := range m {
-		ret[lang.Repr(k)] = toStringKeyMap(v)
+		ret[lang.Repr(k)] = convertElement(v)
 	}
 
 	return ret
@@ -54,8 +54,18 @@ func convertKeyToString(m map[any]any) map[string]any {
 func convertSlice(vs []any) any {
 	ret := make([]any, len(vs))
 	for i, v := range vs {
-		ret[i] = toStringKeyMap(v)
+		ret[i] = convertElement(v)
 	}
 
 	return ret
+}
+
+// convertElement 转换映射的值或切片的元素：YAML 的 null 保持为 nil，
+// 与 JSON 解码 null 的结果一致，而不是变成空字符串。
+func convertElement(v any) any {
+	if v == nil {
+		return nil
+	}
+
+	return toStringKeyMap(v)
 }
